@@ -3,7 +3,7 @@
 from .. import core, tree
 
 MOD = "mc.props.c15"
-KINDS = ("node", "user", "light", "weird")
+KINDS = ("node", "user", "light", "weird", "falsy", "eqhash", "falsylight")
 
 
 def expected(m, a, b):
@@ -127,12 +127,53 @@ def job_primed(kind, n, states):
     return t
 
 
+def check_deep_chain(t, depth=600):
+    """A degenerate but legal shape: one chain far deeper than any fixed recursion budget per level would allow
+    (the pinned implementation walks parent links iteratively for path / root / depth / walk)."""
+    import anytree
+
+    n = depth + 1
+    m = tree.Model([None] + list(range(n - 1)), [[i + 1] for i in range(n - 1)] + [[]])
+    for kind in ("user", "light"):
+        nodes = tree.build(m, tree.default_factory(kind), "topdown")
+        idm = tree.IdMap(nodes)
+        w = anytree.Walker()
+        for a, b in ((n - 1, 0), (0, n - 1), (n - 1, n // 2), (n // 3, n - 2), (n - 1, n - 1)):
+            exp = expected(m, a, b)
+            up, common, down = w.walk(nodes[a], nodes[b])
+            got = (idm.seq(up), idm(common), idm.seq(down))
+            t.c["evaluations"] += 1
+            t.c["deep_chain_walks"] += 1
+            if got != exp:
+                t.violation("C15: walk on a chain of depth %d is wrong" % depth,
+                            {"engine": "E2", "module": MOD, "part": "deep", "kind": kind, "depth": depth, "start": a, "end": b})
+        other = tree.default_factory(kind)(0, "other")
+        try:
+            w.walk(nodes[n - 1], other)
+            t.violation("C15: no WalkError for nodes of different trees (deep chain)",
+                        {"engine": "E2", "module": MOD, "part": "deep", "kind": kind, "depth": depth})
+        except anytree.WalkError:
+            pass
+        # take the chain apart from the top, otherwise object destruction recurses through the whole chain
+        for nd in nodes:
+            nd.parent = None
+
+
+def job_deep():
+    t = core.Tally()
+    core.guard(t, "C15", {"engine": "E2", "module": MOD, "part": "deep"}, check_deep_chain, t)
+    return t
+
+
 def _tup(x):
     return tuple(_tup(i) for i in x) if isinstance(x, list) else x
 
 
 def replay(c):
     t = core.Tally()
+    if c.get("part") == "deep":
+        check_deep_chain(t)
+        return [v["why"] for v in t.violations]
     if c.get("part") == "primed":
         run_primed(t, c["kind"], c["n"], _tup(c["witness"]), tuple(c["primed"]), _tup(c["history"]), c["start"], c["end"])
         return [v["why"] for v in t.violations]
@@ -154,6 +195,7 @@ def run(tier):
     pool = core.Pool(0)
     hist = []
     try:
+        pool.run([(MOD, "job_deep", {})], into=t)
         for kind, n in (("mixin", 3), ("light", 3), ("node", 4)) + ((("mixin", 4), ("light", 4)) if tier == "thorough" else ()):
             states = forest.discover(pool, kind, n, {"read": False, "nonnode": False, "extras": False}, False)
             before = t.c["primed_histories"]
@@ -170,5 +212,5 @@ def run(tier):
                 "first, one mutation, then one walk in isolation (stale-cache histories); non-trivial = start != end" % (nmax, nshapes, fmax),
         "bounds": {"max_nodes": nmax, "forest_nodes": fmax, "inputs": len(items), "partially_primed_histories": hist},
     }
-    return {"tally": t, "coverage": cov, "guards": ("nontrivial", "different_trees", "up_and_down", "primed_histories"),
+    return {"tally": t, "coverage": cov, "guards": ("nontrivial", "different_trees", "up_and_down", "primed_histories", "deep_chain_walks"),
             "assumptions": ["bounded tree sizes"]}
